@@ -126,7 +126,7 @@ def check(cx):
             from axvlib import locks as _locks
             if not hasattr(cx, "_lockfacts"):
                 cx._lockfacts = _locks.LockFacts(p)
-            held = cx._lockfacts.held_at.get(f.id, {})
+            held = cx._lockfacts.held(f)
             same_guard = any(any(m == "w" for g_, (cl_, m) in held.get(c.bb, {}).items() if g_ in held.get(g.bb, {}))
                              for g in from_get)
             cx.verdict(f.id == owner and bool(from_get) and bool(adds) and same_guard, r2b, "%s@%s" % (setter.rsplit("::", 1)[-1], f.id), c.where(),
